@@ -1,4 +1,8 @@
 """developer runner: python3 -m govc.dev <pkgsuffix> <short> [-v]"""
+import os as _os, sys as _sys
+if _os.environ.get("PYTHONHASHSEED") != "0":
+    # same hash seed as bin/check: instantiation order (hence provability of brittle goals) depends on it
+    _os.execve(_sys.executable, [_sys.executable, "-m", "govc.dev"] + _sys.argv[1:], dict(_os.environ, PYTHONHASHSEED="0"))
 import sys, time
 from .engine import Engine, discharge_all, ob_ok
 
